@@ -61,6 +61,7 @@ type Module struct {
 	MoqBin  string
 	Mocks   []MockInfo
 	Methods map[string][]string // interface -> exported method names (complete method set)
+	Class   map[string]string   // "<iface>.<method>" -> shape class of the signature
 	GenLog  []string
 }
 
@@ -194,6 +195,7 @@ func (m *Module) loadMethods(v Variant) error {
 		return core.Infra("loading run-time corpus: %v %v", err, pkgs)
 	}
 	m.Methods = map[string][]string{}
+	m.Class = map[string]string{}
 	for _, c := range Corpus {
 		obj := pkgs[0].Types.Scope().Lookup(c.Name)
 		if obj == nil {
@@ -207,6 +209,7 @@ func (m *Module) loadMethods(v Variant) error {
 		for i := 0; i < it.NumMethods(); i++ {
 			if it.Method(i).Exported() {
 				ms = append(ms, it.Method(i).Name())
+				m.Class[c.Name+"."+it.Method(i).Name()] = shapeClass(it.Method(i).Type().(*types.Signature))
 			}
 		}
 		sort.Strings(ms)
@@ -271,4 +274,44 @@ func RunDriver[T any](bin, dir, mode string, jobs []any, timeout time.Duration, 
 		res = append(res, r)
 	}
 	return res, stderr.String(), err
+}
+
+// shapeClass abstracts a signature to the features generated code could
+// plausibly depend on: arity buckets, variadic tail, whether the parameters
+// hold pointers, named results.
+func shapeClass(sig *types.Signature) string {
+	b := func(n int) string {
+		if n >= 2 {
+			return "2+"
+		}
+		return fmt.Sprint(n)
+	}
+	ptrFree := true
+	for i := 0; i < sig.Params().Len(); i++ {
+		if !pointerFree(sig.Params().At(i).Type(), 0) {
+			ptrFree = false
+		}
+	}
+	named := sig.Results().Len() > 0 && sig.Results().At(0).Name() != ""
+	return fmt.Sprintf("p%s r%s v%v pf%v nr%v", b(sig.Params().Len()), b(sig.Results().Len()), sig.Variadic(), ptrFree, named)
+}
+
+func pointerFree(t types.Type, d int) bool {
+	if d > 5 {
+		return false
+	}
+	switch u := t.Underlying().(type) {
+	case *types.Basic:
+		return u.Info()&types.IsString == 0 && u.Kind() != types.UnsafePointer
+	case *types.Array:
+		return pointerFree(u.Elem(), d+1)
+	case *types.Struct:
+		for i := 0; i < u.NumFields(); i++ {
+			if !pointerFree(u.Field(i).Type(), d+1) {
+				return false
+			}
+		}
+		return true
+	}
+	return false
 }
